@@ -94,7 +94,7 @@ def chunks (N : Nat) (pieces : List Bytes) : List Bytes :=
 
 /-! ## safe.File -/
 
-inductive Res | ok | invalid | closed | cb | errno
+inductive Res | ok | invalid | closed | cb | errno | panic
 deriving DecidableEq, Repr
 
 structure File where
@@ -145,6 +145,8 @@ def File.closeFd (f : File) : File × Res × List Act :=
 inductive Fault
   | none
   | callback (after : Nat)      -- the writer callback returns an error after `after` pieces were handed to bufio
+  | panic (after : Nat)         -- the writer callback panics after `after` pieces: the panic propagates out of
+                                -- WriteFileWithMode, only its deferred `f.Close()` runs during unwinding
   | write (k : Nat)             -- write(2) number `k` (0-based) fails — inside the callback or inside `Flush`
   | close                       -- close(2) in `Commit` fails
   | rename                      -- renameat(2) in `Commit` fails
@@ -168,11 +170,19 @@ def Fault.writeAt : Fault → Option Nat
     `Flush` is not reached -/
 def attempted (N : Nat) (pieces : List Bytes) : Fault → List Bytes
   | .callback j => (feed N [] (pieces.take j)).1
+  | .panic j => (feed N [] (pieces.take j)).1
   | _ => chunks N pieces
 
+/-- the callback itself ends the call (by returning its own error or by panicking) -/
 def Fault.isCallback : Fault → Bool
   | .callback _ => true
+  | .panic _ => true
   | _ => false
+
+/-- how control leaves a callback that ends the call by itself: with its error, or as a panic -/
+def Fault.stopRes : Fault → Res
+  | .panic _ => .panic
+  | _ => .cb
 
 /-- closed form of `writeFile` below (proved equal to it for every callback behaviour in `Lemmas/SafeFile.lean`,
     `writeFile_closed`): the chunk list is computed first, the writes stop at the failing one -/
@@ -183,7 +193,7 @@ def writeFileClosed (tmp dst : Path) (N mode : Nat) (pieces : List Bytes) (fault
   if w.1 ≠ .ok ∨ fault.isCallback = true then
     -- `return` with err set; deferred `f.Close()`
     let c := fa.1.close false
-    ((if w.1 ≠ .ok then w.1 else .cb), fa.2 ++ w.2 ++ c.2.2)
+    ((if w.1 ≠ .ok then w.1 else fault.stopRes), fa.2 ++ w.2 ++ c.2.2)
   else
     let m := fa.1.commit (fault = .close) (fault = .rename)
     let c := m.1.close false                                   -- deferred `f.Close()`
@@ -233,21 +243,23 @@ def BW.flush (f : File) (b : BW) : BW × List Act :=
   else if b.buf.length = 0 then (b, [])
   else ({ b with buf := [] } : BW).sys f b.buf
 
-/-- the writer callback: one `w.Write` per piece; `cbFail = some j`: it returns its own error after `j` pieces -/
-def callback (N : Nat) (f : File) (cb : CbMode) : BW → Option Nat → List Bytes → BW × Res × List Act
-  | b, cbFail, [] => (b, (if cbFail.isSome then .cb else .ok), [])
+/-- the writer callback: one `w.Write` per piece; `cbFail = some j`: after `j` pieces it ends by itself with `stop`
+    (`.cb`: it returns its own error; `.panic`: it panics) -/
+def callback (N : Nat) (f : File) (cb : CbMode) (stop : Res) : BW → Option Nat → List Bytes → BW × Res × List Act
+  | b, cbFail, [] => (b, (if cbFail.isSome then stop else .ok), [])
   | b, cbFail, p :: ps =>
-    if cbFail = some 0 then (b, .cb, [])
+    if cbFail = some 0 then (b, stop, [])
     else
       let r := b.write N f p
       if r.1.err = true ∧ cb = .propagate then (r.1, .errno, r.2)
       else if r.1.err = true ∧ cb = .swallowStop then (r.1, .ok, r.2)
       else
-        let r2 := callback N f cb r.1 (cbFail.map (· - 1)) ps
+        let r2 := callback N f cb stop r.1 (cbFail.map (· - 1)) ps
         (r2.1, r2.2.1, r.2 ++ r2.2.2)
 
 def Fault.cbAt : Fault → Option Nat
   | .callback j => some j
+  | .panic j => some j
   | _ => Option.none
 
 /-- `WriteFileWithMode(dst, writer, mode)`: result and the system calls issued, for a callback that hands `pieces` to
@@ -255,9 +267,10 @@ def Fault.cbAt : Fault → Option Nat
 def writeFile (tmp dst : Path) (N mode : Nat) (pieces : List Bytes) (cb : CbMode) (fault : Fault) : Res × List Act :=
   let fa := File.create tmp dst mode
   let w : BW := { failIn := fault.writeAt }                   -- bufio.NewWriterSize(f, N)
-  let c := callback N fa.1 cb w fault.cbAt pieces              -- err = writer(w)
+  let c := callback N fa.1 cb fault.stopRes w fault.cbAt pieces   -- err = writer(w)
   if c.2.1 ≠ .ok then
-    let cl := fa.1.close false                                 -- return; deferred f.Close()
+    -- `return` with err set — or a panic unwinding through the function: either way only the deferred f.Close() runs
+    let cl := fa.1.close false
     (c.2.1, fa.2 ++ c.2.2 ++ cl.2.2)
   else
     let fl := c.1.flush fa.1                                   -- err = w.Flush()
